@@ -22,7 +22,8 @@ Inductive gty : Type :=
 | TyPair (a : A) (l r : gty)
 | TyOption (a : A) (t : gty)
 | TyOr (a : A) (l r : gty)
-| TyList (a : A) (t : gty).
+| TyList (a : A) (t : gty)
+| TyLambda (a : A) (p r : gty).
 
 Inductive gval : Type :=
 | GInt (a : A) (p : byte) (z : Z)           (* int / nat / mutez / timestamp: tag p *)
@@ -38,10 +39,30 @@ Inductive gval : Type :=
 | GPacked (a : A) (m : node)                (* the bytes value 0x05 ++ forge m produced by PACK *)
 (* lists as chains of cells; every cell repeats the annotation and the item type of the list's class *)
 | GNil (a : A) (t : gty)
-| GCons (a : A) (t : gty) (h tl : gval).
+| GCons (a : A) (t : gty) (h tl : gval)
+(* a lambda value: parameter type, result type, code *)
+| GLam (a : A) (p r : gty) (body : cinstr)
+with cinstr : Type :=
+| IPush (v : gval)                 (* PUSH with the literal already read *)
+| IPushT (t : gty) (lit : node)    (* PUSH ty literal *)
+| IUnpack (t : gty)                (* UNPACK ty, on the result of a PACK *)
+| IGet (n : nat) | IUpdate (n : nat) | IPairN (n : nat) | IUnpairN (n : nat)
+| ICar | ICdr | IPair | IUnpair | ICompare | IPack
+| IDup | ISwap | IDrop
+| ISome | INone (t : gty) | ILeft (t : gty) | IRight (t : gty) | IUnit
+| ICmpOp (op : byte)                 (* EQ NEQ LT GT LE GE: int -> bool *)
+| IArith (op : byte)                 (* ADD SUB MUL on int / nat *)
+| INil (t : gty) | ICons
+| ISeq (a b : cinstr) | INop
+| IIf (a b : cinstr) | IIfNone (a b : cinstr) | IIfLeft (a b : cinstr) | IIfCons (a b : cinstr)
+| IDip (n : nat) (a : cinstr)
+| IIter (a : cinstr) | IMap (a : cinstr) | ILoop (a : cinstr)
+| ILambda (p r : gty) (body : cinstr) | IExec | IApply.
+
 End Poly.
 Arguments gty A : clear implicits.
 Arguments gval A : clear implicits.
+Arguments cinstr A : clear implicits.
 
 Definition aty := gty ann.
 Definition aval := gval ann.
@@ -58,6 +79,7 @@ Fixpoint tmap (t : gty A) : gty B :=
   | TyOption a t => TyOption (f a) (tmap t)
   | TyOr a l r => TyOr (f a) (tmap l) (tmap r)
   | TyList a t => TyList (f a) (tmap t)
+  | TyLambda a p r => TyLambda (f a) (tmap p) (tmap r)
   end.
 Fixpoint gmap (v : gval A) : gval B :=
   match v with
@@ -74,7 +96,29 @@ Fixpoint gmap (v : gval A) : gval B :=
   | GPacked a m => GPacked (f a) m
   | GNil a t => GNil (f a) (tmap t)
   | GCons a t h tl => GCons (f a) (tmap t) (gmap h) (gmap tl)
+  | GLam a p r body => GLam (f a) (tmap p) (tmap r) (imap body)
+  end
+with imap (i : cinstr A) : cinstr B :=
+  match i with
+  | IPush v => IPush (gmap v)
+  | IPushT t lit => IPushT (tmap t) lit
+  | IUnpack t => IUnpack (tmap t)
+  | IGet n => IGet n | IUpdate n => IUpdate n | IPairN n => IPairN n | IUnpairN n => IUnpairN n
+  | ICar => ICar | ICdr => ICdr | IPair => IPair | IUnpair => IUnpair | ICompare => ICompare
+  | IPack => IPack | IDup => IDup | ISwap => ISwap | IDrop => IDrop
+  | ISome => ISome | INone t => INone (tmap t) | ILeft t => ILeft (tmap t) | IRight t => IRight (tmap t)
+  | IUnit => IUnit | ICmpOp op => ICmpOp op | IArith op => IArith op
+  | INil t => INil (tmap t) | ICons => ICons
+  | ISeq a b => ISeq (imap a) (imap b) | INop => INop
+  | IIf a b => IIf (imap a) (imap b)
+  | IIfNone a b => IIfNone (imap a) (imap b)
+  | IIfLeft a b => IIfLeft (imap a) (imap b)
+  | IIfCons a b => IIfCons (imap a) (imap b)
+  | IDip n a => IDip n (imap a)
+  | IIter a => IIter (imap a) | IMap a => IMap (imap a) | ILoop a => ILoop (imap a)
+  | ILambda p r body => ILambda (tmap p) (tmap r) (imap body) | IExec => IExec | IApply => IApply
   end.
+
 End Map.
 
 Definition erase_ty : aty -> ty := tmap (fun _ => tt).
@@ -171,6 +215,7 @@ Fixpoint to_mich (m : mode) (v : gval A) : node :=
   | GLeft _ w _ => NPrim P_Left [to_mich m w] []
   | GRight _ _ w => NPrim P_Right [to_mich m w] []
   | GPacked _ _ => NByt []            (* not rendered by the model (bytes of a PACK result) *)
+  | GLam _ _ _ _ => NSeq []          (* not rendered by the model (code of a lambda) *)
   | GNil _ _ => NSeq []
   | GCons _ _ h tl =>
       NSeq (to_mich m h ::
@@ -236,6 +281,7 @@ Fixpoint ty_shape_eqb (t u : gty A) : bool :=
   | TyOption _ x, TyOption _ y => ty_shape_eqb x y
   | TyOr _ l r, TyOr _ l' r' => ty_shape_eqb l l' && ty_shape_eqb r r'
   | TyList _ x, TyList _ y => ty_shape_eqb x y
+  | TyLambda _ p r, TyLambda _ p' r' => ty_shape_eqb p p' && ty_shape_eqb r r'
   | _, _ => false
   end.
 
@@ -256,6 +302,7 @@ Fixpoint type_of (v : gval A) : gty A :=
   | GPacked a _ => TyPrim a T_bytes0
   | GNil a t => TyList a t
   | GCons a t _ _ => TyList a t
+  | GLam a p r _ => TyLambda a p r
   end.
 
 (* get_anon_type(): the same type without the annotations of its root *)
@@ -266,7 +313,11 @@ Definition anon (t : gty A) : gty A :=
   | TyOption _ x => TyOption d x
   | TyOr _ l r => TyOr d l r
   | TyList _ x => TyList d x
+  | TyLambda _ p r => TyLambda d p r
   end.
+
+(* strip_type_annots(): every annotation of the type dropped, recursively *)
+Definition strip (t : gty A) : gty A := tmap (fun _ => d) t.
 
 (* COMPARE: a.assert_type_equal(type(b)) first, then the comparison *)
 Definition compare_checked (a b : gval A) : option comparison :=
@@ -341,25 +392,10 @@ Fixpoint read (t : gty A) (n : node) {struct t} : option (gval A) :=
              end) items
       | _ => None
       end
+  | TyLambda _ _ _ => None             (* lambda literals are not read by the model (LAMBDA builds them) *)
   end.
 
 (* ---- the instruction fragment ---------------------------------------------------------------------*)
-Inductive cinstr : Type :=
-| IPush (v : gval A)                 (* PUSH with the literal already read *)
-| IPushT (t : gty A) (lit : node)    (* PUSH ty literal *)
-| IUnpack (t : gty A)                (* UNPACK ty, on the result of a PACK *)
-| IGet (n : nat) | IUpdate (n : nat) | IPairN (n : nat) | IUnpairN (n : nat)
-| ICar | ICdr | IPair | IUnpair | ICompare | IPack
-| IDup | ISwap | IDrop
-| ISome | INone (t : gty A) | ILeft (t : gty A) | IRight (t : gty A) | IUnit
-| ICmpOp (op : byte)                 (* EQ NEQ LT GT LE GE: int -> bool *)
-| IArith (op : byte)                 (* ADD SUB MUL on int / nat *)
-| INil (t : gty A) | ICons
-| ISeq (a b : cinstr) | INop
-| IIf (a b : cinstr) | IIfNone (a b : cinstr) | IIfLeft (a b : cinstr) | IIfCons (a b : cinstr)
-| IDip (n : nat) (a : cinstr)
-| IIter (a : cinstr) | IMap (a : cinstr) | ILoop (a : cinstr).
-
 Definition gstack := list (gval A).
 
 Definition O_EQ := x25. Definition O_NEQ := x3c. Definition O_LT := x37. Definition O_GT := x2a.
@@ -404,7 +440,7 @@ Definition from_items (acc : list (gval A)) : option (gval A) :=
   end.
 
 (* instructions without code arguments *)
-Definition step (i : cinstr) (s : gstack) : result gstack :=
+Definition step (i : cinstr A) (s : gstack) : result gstack :=
   match i, s with
   | IPush v, _ => Ok (v :: s)
   | IPushT t lit, _ => match read t lit with Some v => Ok (v :: s) | None => Reject end
@@ -447,6 +483,13 @@ Definition step (i : cinstr) (s : gstack) : result gstack :=
       | Some (a, t) => if ty_shape_eqb t (type_of e) then Ok (GCons a t e l :: s') else Reject
       | None => Reject
       end
+  | ILambda p r body, _ => Ok (GLam d p r body :: s)
+  (* APPLY: the new code pushes the captured value at the STRIPPED left type (fix #52), the remaining parameter type is
+     anonymous (fix #51) *)
+  | IApply, x :: GLam _ (TyPair _ lt rt) r body :: s' =>
+      if ty_shape_eqb (type_of x) lt
+      then Ok (GLam d (anon rt) r (ISeq (IPushT (strip lt) (to_mich LegacyOptimized x)) (ISeq IPair body)) :: s')
+      else Reject
   | _, _ => Reject
   end.
 
@@ -455,11 +498,11 @@ Inductive outcome : Type := Done (s : gstack) | Fail | OutOfFuel.
 Definition of_result (r : result gstack) : outcome := match r with Ok s => Done s | Reject => Fail end.
 
 (* [run n]: n bounds the nesting/number of LOOP iterations only; everything else is structural in the code *)
-Fixpoint run (n : nat) : cinstr -> gstack -> outcome :=
+Fixpoint run (n : nat) : cinstr A -> gstack -> outcome :=
   match n with
   | O => fun _ _ => OutOfFuel
   | S n' =>
-      fix go (i : cinstr) (s : gstack) {struct i} : outcome :=
+      fix go (i : cinstr A) (s : gstack) {struct i} : outcome :=
         match i with
         | ISeq a b => match go a s with Done s' => go b s' | o => o end
         | INop => Done s
@@ -522,39 +565,30 @@ Fixpoint run (n : nat) : cinstr -> gstack -> outcome :=
             | GBool _ false :: s' => Done s'
             | _ => Fail
             end
+        | IExec =>
+            match s with
+            | x :: GLam _ p r body :: s' =>
+                if ty_shape_eqb (type_of x) p then
+                  match run n' body [x] with
+                  | Done [res] => if ty_shape_eqb (type_of res) r then Done (res :: s') else Fail
+                  | Done _ => Fail
+                  | o => o
+                  end
+                else Fail
+            | _ => Fail
+            end
         | _ => of_result (step i s)
         end
   end.
 
-Fixpoint exec (n : nat) (p : list cinstr) (s : gstack) : outcome :=
+Fixpoint exec (n : nat) (p : list (cinstr A)) (s : gstack) : outcome :=
   match p with
   | [] => Done s
   | i :: r => match run n i s with Done s' => exec n r s' | o => o end
   end.
 End Ops.
 
-Arguments cinstr A : clear implicits.
 Arguments outcome A : clear implicits.
-
-Fixpoint imap {A B} (f : A -> B) (i : cinstr A) : cinstr B :=
-  match i with
-  | IPush v => IPush (gmap f v)
-  | IPushT t lit => IPushT (tmap f t) lit
-  | IUnpack t => IUnpack (tmap f t)
-  | IGet n => IGet n | IUpdate n => IUpdate n | IPairN n => IPairN n | IUnpairN n => IUnpairN n
-  | ICar => ICar | ICdr => ICdr | IPair => IPair | IUnpair => IUnpair | ICompare => ICompare
-  | IPack => IPack | IDup => IDup | ISwap => ISwap | IDrop => IDrop
-  | ISome => ISome | INone t => INone (tmap f t) | ILeft t => ILeft (tmap f t) | IRight t => IRight (tmap f t)
-  | IUnit => IUnit | ICmpOp op => ICmpOp op | IArith op => IArith op
-  | INil t => INil (tmap f t) | ICons => ICons
-  | ISeq a b => ISeq (imap f a) (imap f b) | INop => INop
-  | IIf a b => IIf (imap f a) (imap f b)
-  | IIfNone a b => IIfNone (imap f a) (imap f b)
-  | IIfLeft a b => IIfLeft (imap f a) (imap f b)
-  | IIfCons a b => IIfCons (imap f a) (imap f b)
-  | IDip n a => IDip n (imap f a)
-  | IIter a => IIter (imap f a) | IMap a => IMap (imap f a) | ILoop a => ILoop (imap f a)
-  end.
 
 Definition omap {A B} (g : gstack (A:=A) -> gstack (A:=B)) (o : outcome A) : outcome B :=
   match o with Done s => Done (g s) | Fail => Fail | OutOfFuel => OutOfFuel end.
@@ -570,6 +604,7 @@ Fixpoint ty_eqb (a b : aty) : bool :=
   | TyOption x t, TyOption y t' => ann_eqb x y && ty_eqb t t'
   | TyOr x l r, TyOr y l' r' => ann_eqb x y && ty_eqb l l' && ty_eqb r r'
   | TyList x t, TyList y t' => ann_eqb x y && ty_eqb t t'
+  | TyLambda x p r, TyLambda y p' r' => ann_eqb x y && ty_eqb p p' && ty_eqb r r'
   | _, _ => false
   end.
 
